@@ -23,7 +23,7 @@ CHUNK = 100
 TIERS = {'quick': dict(runs=60000, budget_s=240), 'thorough': dict(runs=2500000, budget_s=1500)}
 KINDS = ['list', 'dict', 'tuple', 'box']
 # bundled container printers that take part in cycle detection too (seeded histories only)
-MORE_KINDS = ['deque', 'odict', 'ns', 'mylist', 'mydict', 'ddict', 'ntuple', 'chainmap']
+MORE_KINDS = ['deque', 'odict', 'ns', 'mylist', 'mydict', 'ddict', 'ntuple', 'chainmap', 'chainmap_over']
 NTL = collections.namedtuple('NTL', 'items tag')
 RULE = ('run index < K enumerates ALL graphs with <= 3 nodes over the node kinds list / dict / tuple-holding-a-list / '
         'Box and every subset of the n*n possible edges (self loops included); each is printed from every root, '
@@ -43,7 +43,7 @@ MAX_EXPECT = 5000
 MARK = re.compile(r'<Recursion on (\w+) with id=(\d+)>')
 
 P = PP = None
-ABORT = {'at': None, 'n': 0}
+ABORT = {'at': None, 'n': 0, 'rereg': None}
 
 
 class Box:
@@ -63,7 +63,27 @@ def setup():
         ABORT['n'] += 1
         if ABORT['at'] is not None and ABORT['n'] == ABORT['at']:
             raise KeyboardInterrupt()
+        if ABORT['rereg'] is not None and ABORT['n'] == ABORT['rereg']:
+            _reregister_equivalent_printers()
         return P.pretty_call(ctx, Box, *v.kids)
+
+
+def _reregister_equivalent_printers():
+    """what a lazily imported plug-in does from inside a printer: registers printers for further types.
+    Here: functools.wraps copies of the printers list/dict/tuple already have - behaviour preserving."""
+    import functools
+    for t in (list, dict, tuple):
+        entry = PP.pretty_dispatch.registry.get(t)
+        fn = getattr(entry, 'args', (None,))[0] if isinstance(entry, functools.partial) else None
+        if fn is None:
+            continue
+
+        def make(fn):
+            @functools.wraps(fn)
+            def same(value, ctx, *a, **kw):
+                return fn(value, ctx, *a, **kw)
+            return same
+        P.register_pretty(t)(make(fn))
 
 
 # ------------------------------------------------------------------ enumeration of small graphs
@@ -147,7 +167,11 @@ def generate(rng, idx, tier):
                                                     # a finite depth that can never bind for <= 6 nodes: the finite-depth code path
                                                     'depth': rng.choice([None, None, 64, 100])}])
         elif k == 'abort':
-            ops.append(['abort', rng.randrange(n), rng.randrange(1, 4)])
+            if rng.random() < 0.3:
+                # a print during which a Box printer re-registers equivalent printers for list/dict/tuple
+                ops.append(['print', rng.randrange(n), {'width': rng.choice([10, 30, 79])}, rng.randrange(1, 4)])
+            else:
+                ops.append(['abort', rng.randrange(n), rng.randrange(1, 4)])
         else:
             ops.append(['cc'])
     if n:
@@ -315,6 +339,10 @@ def execute(spec):
             elif kind == 'ntuple':
                 leaf[0] += 1
                 nodes.append(NTL([], leaf[0]))        # like 'tuple': cycles pass through the list field
+            elif kind == 'chainmap_over':
+                # a ChainMap whose first map is an EXISTING dict node (the map itself can then lie on a cycle)
+                dicts = [x for x in nodes if type(x) is dict]
+                nodes.append(collections.ChainMap(dicts[len(nodes) % len(dicts)] if dicts else {}, {'z': 0}))
             elif kind == 'chainmap':
                 nodes.append(collections.ChainMap({}))  # edges live in maps[0], a real dict on the path
             elif kind == 'deque':
@@ -419,10 +447,16 @@ def execute(spec):
                 trace.append(op)
                 continue
             ABORT['at'] = None
+            ABORT['n'] = 0
+            ABORT['rereg'] = op[3] if len(op) > 3 else None
+            if len(op) > 3:
+                bump('prints_with_reregistration_inside')
             try:
                 text = P.pformat(root, **op[2])
             except Exception as e:
+                ABORT['rereg'] = None
                 return fail('print_raised', type(e).__name__, op=op, error=repr(e)[:300])
+            ABORT['rereg'] = None
             prints += 1
             bump('prints')
             trace.append(op)
